@@ -6,6 +6,14 @@ ALL = ["C%02d" % i for i in range(1, 19)]
 
 # id -> (technique, level text, level note, design ref)
 CHECKS = {
+ "C08": ("exhaustive enumeration of combinator terms x consumer strings x condition answers x injected panics on the real seq runtime vs a direct structured-loop interpreter",
+         "All combinator terms up to size 4 (quick: 2.5k terms) / size 5 plus MoveNext-only size 6 (thorough) are built with the real seq API from logging closures; for each term a stateless DFS explores every answer vector of the loop conditions to depth 4, every consumer string over {MoveNext, Send} of length 4 (plus two long ones), a panic injected at every logged event, and a second Start of the same Seq value. The marked log (which thunk/cond/post ran inside which consumer call, yielded values, result, panic site) must equal the log written by a direct interpreter for structured loops; Combine associativity/units and Delay transparency are additionally checked implementation-against-implementation.",
+         "Trusted: the interpreter exec8 and consumer model in rtcheck/c08.go. Terms that spin without an event are pruned (no finite observation). Terms above the size bound are not covered; the property mentions random larger terms - sampling is outside this technique and is not done.",
+         "DESIGN.md section 2, C08"),
+ "C10": ("exhaustive enumeration of inputs (byte strings over an 8-byte alphabet, ints, slices x mutation scripts, maps x deletion scripts, channel contents) vs the native range statement",
+         "Every byte string up to length 4 (quick) / 6 (thorough) over {a, C3, A9, E2, 82, AC, F0, FF} (ASCII, valid 2/3-byte runes, truncated and invalid sequences), every n in -3..8, every []int shape up to length 4/5 (nil, empty, spare capacity) under every mutation script, every map over keys {a,b,c,nil} x values {1,nil} in three map types with deletion scripts, and every channel content up to length 3 are fed to the seq.New*Iter iterators and to a native range loop in the same process; the pair sequences must be equal (multisets plus the spec deletion rules for maps).",
+         "Trusted: the Go compiler own range statement as reference. Inputs beyond the bounds (longer strings, other element types) are not covered; random longer inputs mentioned by the property are sampling and are not done.",
+         "DESIGN.md section 2, C10"),
  "C09": ("exhaustive enumeration of operation histories on the real iterator vs an abstract state machine",
          "Every history over {MoveNext, Current, Result, Send(1), Send(2)} up to length 6 (quick) / 8 (thorough) is replayed on a fresh real seq iterator for each of 42 generators (BindRecv/Bind chains, For-loop and infinite generators, with/without echo and return value) and compared, record by record including the generator-side effect log, with a 30-line abstract machine written from the property statement. Bounded-exhaustive: no sampling.",
          "Trusted: the abstract machine in rtcheck/c09.go; histories longer than the bound and generators outside the family are not covered. Result is compared only after exhaustion.",
